@@ -9,7 +9,7 @@ three runs).  A slot holds one socketpair; (slot, side) names one end = one desc
 (channel 'cA', 'cB', or a source object without ``channel`` -> '*').
 
   addR/addW/rmR/rmW/discard   poller API on that end (add only if the role is not registered yet, as every caller does)
-  send/recv/fill/shut         traffic on that end (drives readability/writability of both ends)
+  send/recv/fill/shut/oob     traffic on that end (drives readability/writability of both ends; oob = one urgent byte sent / taken)
   close                       k%4: 0 discard-then-close, 1|2 close WITHOUT discard, 3 close-then-discard
   open                        new socketpair (append a slot, or recycle the slot: remaining ends are discarded+closed
                               first); the lowest free fd numbers are reused
@@ -42,7 +42,7 @@ SHUT_HOW = (socket.SHUT_RD, socket.SHUT_WR, socket.SHUT_RDWR)
 HUPMASK = select.POLLHUP | select.POLLERR | select.POLLNVAL
 
 OPS = (['addR'] * 4 + ['addW'] * 4 + ['rmR'] * 2 + ['rmW'] * 2 + ['discard'] * 2 + ['send'] * 4 + ['recv'] * 2 +
-       ['fill'] * 1 + ['shut'] * 1 + ['close'] * 3 + ['open'] * 3 + ['resume'] * 1 + ['poll'] * 8)
+       ['fill'] * 1 + ['shut'] * 1 + ['close'] * 3 + ['open'] * 3 + ['resume'] * 1 + ['poll'] * 8 + ['oob'] * 1)
 
 
 class Src(BaseComponent):
@@ -269,6 +269,17 @@ class Universe:
         elif op == 'shut':
             try:
                 e.sock.shutdown(SHUT_HOW[k % 3])
+            except OSError:
+                pass
+        elif op == 'oob':
+            # urgent data: an "exceptional condition" for select(), POLLPRI for poll(); neither is read or write readiness
+            try:
+                if k % 3:
+                    e.sock.send(b'!', socket.MSG_OOB)
+                    if other.open:
+                        self.flags.add('urgent-data-sent')
+                else:
+                    e.sock.recv(1, socket.MSG_OOB)
             except OSError:
                 pass
         return None
